@@ -430,7 +430,7 @@ def replay(ctx: Ctx, case):
 def run(ctx: Ctx):
     q = ctx.tier == "quick"
     if q:
-        if not run_given(ctx, "roundtrip", cases(4, 6), check_roundtrip, per_shard(ctx, 5000), batch=100):
+        if not run_given(ctx, "roundtrip", cases(4, 6), check_roundtrip, per_shard(ctx, 4400), batch=100):
             return
         run_given(ctx, "cli-meta", cli_meta_cases(), check_cli_meta, per_shard(ctx, 160), batch=20)
     else:
